@@ -926,11 +926,29 @@ Definition unquoted_value (u rest : list Z) : Prop :=
 Definition quoted_value (val : list Z) : Prop :=
   exists q body, val = q :: body ++ [q] /\ (q = 34 \/ q = 39) /\ Forall (fun c => c <> q) body.
 
+(* a quoted value that the end of input cuts: the opening quote and bytes other than the quote *)
+Definition cut_quoted_value (val : list Z) : Prop :=
+  exists q body, val = q :: body /\ (q = 34 \/ q = 39) /\ Forall (fun c => c <> q) body.
+
+Lemma attrq_cut_loop z q body has : reads z body -> Forall (fun c => c <> q) body -> q <> 0 ->
+  loop (fuel_of z) (attrq_body no_tmpl q) (z, has) = Ok (mv z (len body), has).
+Proof.
+  intros Hr Hb Hq. pose proof (len_nonneg body).
+  apply (loop_scan2 _ z has (len body)); [lia| | |eapply fuel_of_enough; [exact Hr|lia]].
+  - intros i Hi. destruct (peekz_in body i Hi) as (c & Hc & Hin). rewrite Forall_forall in Hb. specialize (Hb c Hin).
+    unfold attrq_body. rewrite pkr_mv0, (reads_pkr z _ i c Hr Hc). cbn [rbind]. rewrite tmpl_at_none. cbn [rbind].
+    replace (c =? q) with false by (symmetry; apply Z.eqb_neq; exact Hb).
+    rewrite (reads_eof0_in z _ i c Hr Hc). rewrite mv_mv. reflexivity.
+  - unfold attrq_body. rewrite pkr_mv0. destruct (reads_end z body Hr) as [Hp _]. unfold pkr. rewrite Hp. cbn [opt_res rbind].
+    rewrite tmpl_at_none. cbn [rbind]. replace (0 =? q) with false by (symmetry; apply Z.eqb_neq; lia).
+    rewrite (reads_eof0_end z body Hr). reflexivity.
+Qed.
+
 Lemma next_attr_valued d l pre ws1 key ws2 ws3 val rest :
   at_input d l pre (ws1 ++ key ++ ws2 ++ 61 :: ws3 ++ val ++ rest) -> intag l = true ->
   Forall (fun c => is_ws c = true) ws1 -> key <> [] -> Forall keychar key ->
   Forall (fun c => is_ws c = true) ws2 -> Forall (fun c => is_ws c = true) ws3 ->
-  (unquoted_value val rest \/ quoted_value val) ->
+  (unquoted_value val rest \/ quoted_value val \/ (cut_quoted_value val /\ rest = [])) ->
   let n := len ws1 + len key + len ws2 + 1 + len ws3 + len val in
   exists l', next no_tmpl l = Ok (AttributeT, Some (mkSl (len pre) n), l') /\
     ltext l' = Some (mkSl (len pre + len ws1) (len key)) /\
@@ -955,9 +973,10 @@ Proof.
   rewrite (reads_pkr zz2 _ 0 61 Hr3) by apply peekz_cons_0. cbn [rbind]. change (61 =? 61) with true. cbn [rbind].
   (* the first byte of the value *)
   assert (Hv0 : exists c1 vt, val = c1 :: vt /\ is_ws c1 = false).
-  { destruct Hval as [((c & t & -> & _) & Hu & _)|(q & body & -> & Hq & _)].
+  { destruct Hval as [((c & t & -> & _) & Hu & _)|[(q & body & -> & Hq & _)|((q & body & -> & Hq & _) & _)]].
     - exists c, t. split; [reflexivity|]. inversion Hu as [|? ? Hc _]. apply Hc.
-    - exists q, (body ++ [q]). split; [reflexivity|]. destruct Hq as [-> | -> ]; reflexivity. }
+    - exists q, (body ++ [q]). split; [reflexivity|]. destruct Hq as [-> | -> ]; reflexivity.
+    - exists q, body. split; [reflexivity|]. destruct Hq as [-> | -> ]; reflexivity. }
   destruct Hv0 as (c1 & vt & Ev & Hc1ws).
   pose proof (reads_mv _ _ 1 Hr3 ltac:(unfold r2; rewrite len_cons; pose proof (len_nonneg (ws3 ++ val ++ rest)); lia)) as Hr4.
   change (skipz 1 r2) with (ws3 ++ val ++ rest) in Hr4.
@@ -971,7 +990,7 @@ Proof.
   (* the value loop *)
   assert (Hvloop : (if (c1 =? 34) || (c1 =? 39) then loop (fuel_of z3) (attrq_body no_tmpl c1) (mv z3 1, false)
                     else loop (fuel_of z3) (with_tmpl_lx no_tmpl attru_body) (z3, false)) = Ok (mv z3 (len val), false)).
-  { destruct Hval as [((c & t & Eu & Hc34 & Hc39) & Hu & Hrest)|(q & body & Eq & Hq & Hbody)].
+  { destruct Hval as [((c & t & Eu & Hc34 & Hc39) & Hu & Hrest)|[(q & body & Eq & Hq & Hbody)|((q & body & Eq & Hq & Hbody) & Hrest)]].
     - rewrite Eu in Ev. injection Ev as <- <-.
       replace ((c =? 34) || (c =? 39)) with false by (symmetry; apply orb_false_iff; split; apply Z.eqb_neq; assumption).
       unfold with_tmpl_lx; rewrite loop_with_no_tmpl; rewrite (attru_loop_run z3 val rest Hr5 Hu Hrest). reflexivity.
@@ -981,7 +1000,13 @@ Proof.
       rewrite Eq in Hr6. change (skipz 1 ((q :: body ++ [q]) ++ rest)) with ((body ++ [q]) ++ rest) in Hr6.
       rewrite <- app_assoc in Hr6. cbn [app] in Hr6.
       rewrite (loop_fuel_mono _ _ (fuel_of z3) _ _ (attrq_loop_run _ q body rest false Hr6 Hbody)) by (apply fuel_of_mv_le; lia).
-      rewrite mv_mv, Eq, len_cons, len_app. change (len [q]) with 1. first [reflexivity | do 3 f_equal; lia | do 2 f_equal; lia]. }
+      rewrite mv_mv, Eq, len_cons, len_app. change (len [q]) with 1. first [reflexivity | do 3 f_equal; lia | do 2 f_equal; lia].
+    - rewrite Eq in Ev. injection Ev as <- <-.
+      replace ((q =? 34) || (q =? 39)) with true by (symmetry; destruct Hq as [-> | -> ]; reflexivity).
+      pose proof (reads_mv _ _ 1 Hr5 ltac:(rewrite Eq; cbn [app]; rewrite len_cons; pose proof (len_nonneg (body ++ rest)); lia)) as Hr6.
+      rewrite Eq in Hr6. change (skipz 1 ((q :: body) ++ rest)) with (body ++ rest) in Hr6. rewrite Hrest, app_nil_r in Hr6.
+      rewrite (loop_fuel_mono _ _ (fuel_of z3) _ _ (attrq_cut_loop _ q body false Hr6 Hbody ltac:(destruct Hq; lia))) by (apply fuel_of_mv_le; lia).
+      rewrite mv_mv, Eq, len_cons. first [reflexivity | do 3 f_equal; lia | do 2 f_equal; lia]. }
   rewrite Hvloop. cbn [rbind fst snd].
   destruct Hr5 as [Hw3 Hrem3].
   destruct (rem_mv _ (len val) Hw3) as [_ Hw4]; [rewrite Hrem3, len_app; lia|].
@@ -1115,18 +1140,18 @@ Lemma prefixb_cons_same x p s : prefixb (x :: p) (x :: s) = prefixb p s.
 Proof. cbn [prefixb]. rewrite Z.eqb_refl. reflexivity. Qed.
 
 Lemma xml_loop_run raw ename erest : Forall (fun c => is_letter c = true) ename -> to_hash (map lower ename) = Ok raw ->
-  (exists c r, erest = c :: r /\ is_letter c = false) ->
+  (erest = [] \/ exists c r, erest = c :: r /\ is_letter c = false) ->
   forall n inner, (length inner <= n)%nat -> forall z it q sk fuel,
   reads z (inner ++ 60 :: 47 :: ename ++ erest) -> xml_wf n raw it q sk inner = true -> (length inner < fuel)%nat ->
   loop fuel (xml_body raw) (z, it, q, sk) = Ok (inl (mv z (len inner + 2 + len ename))).
 Proof.
-  intros Hlet Hhash (ce & re & Ee & Hce). induction n as [|n IH]; intros inner Hn z it q sk fuel Hr Hwf Hf.
+  intros Hlet Hhash Herest. induction n as [|n IH]; intros inner Hn z it q sk fuel Hr Hwf Hf.
   all: destruct fuel as [|k]; [lia|]; cbn [loop].
   all: destruct inner as [|c t].
   1,3: (* at the end tag *)
     cbn [xml_wf] in Hwf; apply andb_true_iff in Hwf; destruct Hwf as [Hwf Hsk]; apply andb_true_iff in Hwf; destruct Hwf as [Hit Hq];
     apply negb_true_iff in Hit; apply Z.eqb_eq in Hq; apply Z.eqb_eq in Hsk; subst it q sk;
-    cbn [app] in Hr; rewrite (xml_body_endtag raw z ename erest Hr Hlet) by (right; rewrite Ee; eauto);
+    cbn [app] in Hr; rewrite (xml_body_endtag raw z ename erest Hr Hlet) by exact Herest;
     rewrite Hhash; cbn [rbind]; rewrite Z.eqb_refl; cbn [rbind]; change (len (@nil Z)) with 0; reflexivity.
   - cbn [length] in Hn. lia.
   - cbn [length] in Hn, Hf. cbn [app] in Hr.
@@ -1238,6 +1263,150 @@ Proof.
     rewrite Eh. cbn [rbind]. apply negb_true_iff in Hh. rewrite Hh. reflexivity.
 Qed.
 
+(* one step of the first loop of shiftXML on the remaining input s, in the state (inside a tag, quote, skipped
+   section): the number of bytes moved and the new state; None where the loop ends (NUL / end of input, or "</" +
+   letters that hash to the element's name) *)
+Definition xml_step (raw : Z) (it : bool) (q sk : Z) (s : list Z) : option (Z * bool * Z * Z) :=
+  match s with
+  | [] => None
+  | c :: t =>
+      if c =? 0 then None
+      else if negb (sk =? 0) then
+        if ((sk =? 1) && prefixb [45; 45; 62] s) || ((sk =? 2) && prefixb [93; 93; 62] s) then Some (3, it, q, 0)
+        else if (sk =? 3) && prefixb [63; 62] s then Some (2, it, q, 0)
+        else Some (1, it, q, sk)
+      else if negb (q =? 0) then Some (1, it, (if c =? q then 0 else q), sk)
+      else if it then Some (1, (if c =? 62 then false else it), (if (c =? 34) || (c =? 39) then c else q), sk)
+      else if c =? 60 then
+        if negb (hd 0 t =? 47) then
+          if prefixb [60; 33; 45; 45] s then Some (4, it, q, 1)
+          else if prefixb [60; 33; 91; 67; 68; 65; 84; 65; 91] s then Some (9, it, q, 2)
+          else if hd 0 t =? 63 then Some (2, it, q, 3)
+          else Some (1, negb (hd 0 t =? 33), q, sk)
+        else
+          match to_hash (map lower (letter_run (tl t))) with
+          | Ok h => if h =? raw then None else Some (2 + len (letter_run (tl t)), it, q, sk)
+          | _ => None
+          end
+      else Some (1, it, q, sk)
+  end.
+
+Lemma xml_body_step raw z it q sk s j it' q' sk' : reads z s -> xml_step raw it q sk s = Some (j, it', q', sk') ->
+  xml_body raw (z, it, q, sk) = Ok (Cont (mv z j, it', q', sk')) /\ 1 <= j <= len s.
+Proof.
+  intros Hr H. destruct s as [|c t]; [discriminate|]. unfold xml_step in H.
+  pose proof (len_nonneg t) as Hlt.
+  assert (Hl1 : len (c :: t) = 1 + len t) by (rewrite len_cons; lia).
+  assert (Hpk : pkr z 0 = Ok c) by (apply (reads_pkr z _ 0 c Hr), peekz_cons_0).
+  assert (Hatp : forall pat, nz_list pat -> at_ z pat = Ok (prefixb pat (c :: t))).
+  { intros pat Hnz. destruct Hr as [Hw Hrem]. rewrite at_rem by assumption. rewrite Hrem. reflexivity. }
+  destruct (c =? 0) eqn:E0; [discriminate|].
+  destruct (negb (sk =? 0)) eqn:Esk.
+  { assert (Hb1 : (if sk =? 1 then at_ z [45; 45; 62] else if sk =? 2 then at_ z [93; 93; 62] else Ok false) =
+                  Ok (((sk =? 1) && prefixb [45; 45; 62] (c :: t)) || ((sk =? 2) && prefixb [93; 93; 62] (c :: t)))).
+    { destruct (sk =? 1) eqn:E1; cbn [andb orb].
+      - rewrite Hatp by (repeat constructor; lia).
+        replace (sk =? 2) with false by (symmetry; b2p; apply Z.eqb_neq; lia). cbn [andb]. rewrite orb_false_r. reflexivity.
+      - destruct (sk =? 2); cbn [andb]; [|reflexivity]. apply Hatp; repeat constructor; lia. }
+    assert (Hb2 : (if sk =? 3 then at_ z [63; 62] else Ok false) = Ok ((sk =? 3) && prefixb [63; 62] (c :: t))).
+    { destruct (sk =? 3); cbn [andb]; [|reflexivity]. apply Hatp; repeat constructor; lia. }
+    assert (Hbody : xml_body raw (z, it, q, sk) =
+              (if ((sk =? 1) && prefixb [45; 45; 62] (c :: t)) || ((sk =? 2) && prefixb [93; 93; 62] (c :: t)) then Ok (Cont (mv z 3, it, q, 0))
+               else if (sk =? 3) && prefixb [63; 62] (c :: t) then Ok (Cont (mv z 2, it, q, 0)) else Ok (Cont (mv z 1, it, q, sk)))).
+    { unfold xml_body. rewrite Hpk. cbn [rbind]. rewrite Esk, E0. cbn [negb andb]. rewrite Hb1. cbn [rbind].
+      destruct (((sk =? 1) && prefixb [45; 45; 62] (c :: t)) || ((sk =? 2) && prefixb [93; 93; 62] (c :: t))); [reflexivity|].
+      rewrite Hb2. cbn [rbind]. destruct ((sk =? 3) && prefixb [63; 62] (c :: t)); reflexivity. }
+    rewrite Hbody.
+    destruct (((sk =? 1) && prefixb [45; 45; 62] (c :: t)) || ((sk =? 2) && prefixb [93; 93; 62] (c :: t))) eqn:Ep3.
+    - injection H as <- <- <- <-. split; [reflexivity|].
+      apply orb_true_iff in Ep3. destruct Ep3 as [Ep3|Ep3]; apply andb_true_iff in Ep3; destruct Ep3 as [_ Ep3]; apply prefixb_len in Ep3;
+        unfold len in Ep3 at 1; cbn [length] in Ep3; lia.
+    - destruct ((sk =? 3) && prefixb [63; 62] (c :: t)) eqn:Ep2.
+      + injection H as <- <- <- <-. split; [reflexivity|].
+        apply andb_true_iff in Ep2; destruct Ep2 as [_ Ep2]; apply prefixb_len in Ep2; unfold len in Ep2 at 1; cbn [length] in Ep2; lia.
+      + injection H as <- <- <- <-. split; [reflexivity|lia]. }
+  apply negb_false_iff, Z.eqb_eq in Esk. subst sk.
+  destruct (negb (q =? 0)) eqn:Eq.
+  { injection H as <- <- <- <-. split; [|lia]. unfold xml_body. rewrite Hpk. cbn [rbind Z.eqb negb andb]. rewrite Eq, E0. reflexivity. }
+  apply negb_false_iff, Z.eqb_eq in Eq. subst q.
+  destruct it.
+  { injection H as <- <- <- <-. split; [|lia]. unfold xml_body. rewrite Hpk. cbn [rbind Z.eqb negb andb]. rewrite E0. cbn [negb]. reflexivity. }
+  destruct (c =? 60) eqn:E60.
+  2:{ injection H as <- <- <- <-. split; [|lia]. unfold xml_body. rewrite Hpk. cbn [rbind Z.eqb negb andb]. rewrite E60, E0. reflexivity. }
+  apply Z.eqb_eq in E60. subst c.
+  assert (Hpk1 : pkr z 1 = Ok (hd 0 t)).
+  { destruct t as [|x t1]; cbn [hd].
+    - destruct (reads_end z [60] Hr) as [Hp _]. change (len [60]) with 1 in Hp. unfold pkr. rewrite Hp. reflexivity.
+    - apply (reads_pkr z _ 1 x Hr), peekz_1. }
+  destruct (negb (hd 0 t =? 47)) eqn:E47.
+  { assert (Hbody : xml_body raw (z, false, 0, 0) =
+              (if prefixb [60; 33; 45; 45] (60 :: t) then Ok (Cont (mv z 4, false, 0, 1))
+               else if prefixb [60; 33; 91; 67; 68; 65; 84; 65; 91] (60 :: t) then Ok (Cont (mv z 9, false, 0, 2))
+               else if hd 0 t =? 63 then Ok (Cont (mv z 2, false, 0, 3)) else Ok (Cont (mv z 1, negb (hd 0 t =? 33), 0, 0)))).
+    { unfold xml_body. rewrite Hpk. cbn [rbind Z.eqb Pos.eqb negb andb]. rewrite Hpk1. cbn [rbind]. rewrite E47.
+      rewrite Hatp by (repeat constructor; lia). cbn [rbind]. destruct (prefixb [60; 33; 45; 45] (60 :: t)); [reflexivity|].
+      rewrite Hatp by (repeat constructor; lia). cbn [rbind]. destruct (prefixb [60; 33; 91; 67; 68; 65; 84; 65; 91] (60 :: t)); reflexivity. }
+    rewrite Hbody.
+    destruct (prefixb [60; 33; 45; 45] (60 :: t)) eqn:P4.
+    { injection H as <- <- <- <-. split; [reflexivity|]. apply prefixb_len in P4. unfold len in P4 at 1; cbn [length] in P4. lia. }
+    destruct (prefixb [60; 33; 91; 67; 68; 65; 84; 65; 91] (60 :: t)) eqn:P9.
+    { injection H as <- <- <- <-. split; [reflexivity|]. apply prefixb_len in P9. unfold len in P9 at 1; cbn [length] in P9. lia. }
+    destruct (hd 0 t =? 63) eqn:E63.
+    { injection H as <- <- <- <-. split; [reflexivity|]. destruct t as [|x t1]; [cbn [hd] in E63; discriminate|]. rewrite !len_cons. pose proof (len_nonneg t1). lia. }
+    injection H as <- <- <- <-. split; [reflexivity|lia]. }
+  apply negb_false_iff, Z.eqb_eq in E47.
+  destruct t as [|x t1]; [cbn [hd] in E47; discriminate|]. simpl tl in H. simpl hd in *. subst x.
+  destruct (letter_run_split t1) as (r1 & Et1 & Hlr & Hr1).
+  set (ls := letter_run t1) in *.
+  destruct (to_hash (map lower ls)) as [h| |] eqn:Eh; try discriminate.
+  destruct (h =? raw) eqn:Ehr; [discriminate|].
+  assert (Ej : j = 2 + len ls) by congruence. assert (Eit : it' = false) by congruence. assert (Eq' : q' = 0) by congruence. assert (Esk' : sk' = 0) by congruence.
+  subst j it' q' sk'. clear H.
+  assert (Hlt1 : len t1 = len ls + len r1) by (rewrite Et1 at 1; apply len_app).
+  assert (Hr' : reads z (60 :: 47 :: ls ++ r1)) by (rewrite <- Et1; exact Hr).
+  split; [|rewrite !len_cons; pose proof (len_nonneg ls); pose proof (len_nonneg r1); lia].
+  rewrite (xml_body_endtag raw z ls r1 Hr' Hlr Hr1). rewrite Eh. cbn [rbind]. rewrite Ehr. reflexivity.
+Qed.
+
+(* at the end of input the loop stops ("c == 0") *)
+Lemma xml_body_end raw z it q sk : reads z [] -> xml_body raw (z, it, q, sk) = Ok (Brk (inr z)).
+Proof.
+  intros Hr. destruct (reads_end z [] Hr) as [Hp _]. change (len (@nil Z)) with 0 in Hp.
+  unfold xml_body, pkr. rewrite Hp. cbn [opt_res rbind Z.eqb negb]. rewrite !andb_false_r. reflexivity.
+Qed.
+
+(* content that the end of input cuts: every step of shiftXML's first loop continues, whatever the state at the end *)
+Fixpoint xml_cut_ok (fuel : nat) (raw : Z) (it : bool) (q sk : Z) (s : list Z) : bool :=
+  match s with
+  | [] => true
+  | _ :: _ =>
+      match fuel with
+      | O => false
+      | S k => match xml_step raw it q sk s with
+               | Some (j, it', q', sk') => xml_cut_ok k raw it' q' sk' (skipz j s)
+               | None => false
+               end
+      end
+  end.
+
+Lemma xml_cut_loop raw : forall n s, (length s <= n)%nat -> forall z it q sk fuel,
+  reads z s -> xml_cut_ok n raw it q sk s = true -> (length s < fuel)%nat ->
+  loop fuel (xml_body raw) (z, it, q, sk) = Ok (inr (mv z (len s))).
+Proof.
+  induction n as [|n IH]; intros s Hn z it q sk fuel Hr Hok Hf.
+  all: destruct fuel as [|k]; [lia|]; cbn [loop].
+  all: destruct s as [|c t].
+  1,3: rewrite (xml_body_end raw z it q sk Hr); cbn [rbind]; change (len (@nil Z)) with 0; rewrite mv_0; reflexivity.
+  - cbn [length] in Hn. lia.
+  - cbn [xml_cut_ok] in Hok. destruct (xml_step raw it q sk (c :: t)) as [[[[j it'] q'] sk']|] eqn:Es; [|discriminate].
+    destruct (xml_body_step raw z it q sk _ j it' q' sk' Hr Es) as [Hb Hj]. rewrite Hb. cbn [rbind].
+    pose proof (reads_mv _ _ j Hr ltac:(lia)) as Hr'.
+    assert (Hlen' : len (skipz j (c :: t)) = len (c :: t) - j) by (apply len_skipz; lia).
+    assert (Hls : (length (skipz j (c :: t)) < length (c :: t))%nat) by (unfold len in *; lia).
+    cbn [length] in Hls, Hn, Hf.
+    rewrite (IH (skipz j (c :: t)) ltac:(lia) (mv z j) it' q' sk' k Hr' Hok ltac:(lia)). rewrite mv_mv. do 3 f_equal. lia.
+Qed.
+
 Lemma xml_close_loop_run z ews rest : reads z (ews ++ 62 :: rest) -> Forall (fun c => c <> 62 /\ c <> 0) ews ->
   loop (fuel_of z) xml_close_body z = Ok (inl (mv z (len ews + 1))).
 Proof.
@@ -1326,7 +1495,7 @@ Proof.
     inversion Hews as [|? ? Hw _]; subst. unfold is_ws in Hw. unfold is_letter.
     repeat (apply orb_true_iff in Hw; destruct Hw as [Hw|Hw]); apply Z.eqb_eq in Hw; subst w; reflexivity. }
   unfold shift_xml. rewrite loop_with_no_tmpl.
-  rewrite (xml_loop_run h ename (ews ++ 62 :: rest) Helet Heh Herest (length inner) inner (le_n _) z2 true 0 0 (fuel_of z2) Hr3 Hinner).
+  rewrite (xml_loop_run h ename (ews ++ 62 :: rest) Helet Heh (or_intror Herest) (length inner) inner (le_n _) z2 true 0 0 (fuel_of z2) Hr3 Hinner).
   2:{ pose proof (fuel_of_enough z2 tl (len inner) Hr3 ltac:(lia)) as Hfe. unfold len in Hfe. rewrite Nat2Z.id in Hfe. exact Hfe. }
   cbn [rbind fst snd].
   pose proof (reads_mv _ _ (len inner + 2 + len ename) Hr3 ltac:(lia)) as Hr4.
@@ -1344,6 +1513,155 @@ Proof.
   rewrite shiftv_spec by exact Hw5. rewrite Hle. cbn [rbind fst snd orb].
   unfold z2, lx_lower. cbn [mv lbuf lstart lpos so sn skip]. rewrite Ht, Hcl, Hp.
   replace (len pre + 1 + len name + (len inner + 2 + len ename) + (len ews + 1) - len pre) with n by (unfold n; lia).
+  eexists. split; [reflexivity|]. cbn [ltext lz intag rawtag lerr lbuf]. repeat split.
+Qed.
+
+Lemma xml_close_cut_run z ews : reads z ews -> Forall (fun c => c <> 62 /\ c <> 0) ews ->
+  loop (fuel_of z) xml_close_body z = Ok (inr (mv z (len ews))).
+Proof.
+  intros Hr Hb. pose proof (len_nonneg ews).
+  apply (loop_scan _ z (len ews)); [lia| | |eapply fuel_of_enough; [exact Hr|lia]].
+  - intros i Hi. destruct (peekz_in ews i Hi) as (c & Hc & Hin). rewrite Forall_forall in Hb. destruct (Hb c Hin) as [H62 H0'].
+    unfold xml_close_body. rewrite pkr_mv0, (reads_pkr z _ i c Hr Hc). cbn [rbind].
+    replace (c =? 62) with false by (symmetry; apply Z.eqb_neq; exact H62).
+    replace (c =? 0) with false by (symmetry; apply Z.eqb_neq; exact H0'). rewrite mv_mv. reflexivity.
+  - unfold xml_close_body. rewrite pkr_mv0. destruct (reads_end z ews Hr) as [Hp _]. unfold pkr. rewrite Hp. reflexivity.
+Qed.
+
+(* "<svg" inner "</svg" ews, cut by the end of input inside the end tag: one token, no error *)
+Lemma next_foreign_cut_end d l pre name inner ename ews h :
+  at_input d l pre (60 :: name ++ inner ++ 60 :: 47 :: ename ++ ews) -> intag l = false -> rawtag l = 0 ->
+  lerr l = false ->
+  (exists c nm, name = c :: nm /\ is_letter c = true) -> Forall namechar name ->
+  to_hash (map lower name) = Ok h -> to_hash (map lower ename) = Ok h -> is_xml_hash h = true ->
+  (exists c r, inner = c :: r /\ (is_ws c = true \/ c = 62)) -> xml_wf (length inner) h true 0 0 inner = true ->
+  Forall (fun c => is_letter c = true) ename -> Forall (fun c => is_ws c = true) ews ->
+  let n := 1 + len name + len inner + 2 + len ename + len ews in
+  exists l', next no_tmpl l = Ok (foreign_ty h, Some (mkSl (len pre) n), l') /\
+    ltext l' = Some (mkSl (len pre + 1) (len name)) /\
+    lbuf (lz l') = lower_view (lbuf (lz l)) (mkSl (len pre + 1) (len name)) /\
+    intag l' = false /\ rawtag l' = 0 /\ lerr l' = false.
+Proof.
+  intros Hat Hit Hraw Hle (c & nm & Ename & Hlet) Hname Hh Heh Hxml (ci & ri & Ei & Hci) Hinner Helet Hews n.
+  pose proof (at_input_reads _ _ _ _ Hat) as Hr.
+  pose proof Hat as (Hi & Hcl & Hd & Hp).
+  pose proof (len_nonneg name). pose proof (len_nonneg inner). pose proof (len_nonneg ename). pose proof (len_nonneg ews).
+  set (tl := inner ++ 60 :: 47 :: ename ++ ews) in *.
+  assert (Hltl : len tl = len inner + 2 + len ename + len ews) by (unfold tl; rewrite len_app, !len_cons, len_app; lia).
+  assert (Hstop : tag_stop tl).
+  { right. unfold tl. rewrite Ei. cbn [app]. exists ci, (ri ++ 60 :: 47 :: ename ++ ews). split; [reflexivity|].
+    destruct Hci as [Hw| ->]; [left; exact Hw|right; left; reflexivity]. }
+  unfold next. cbn [lz rawtag intag lerr ltext lattr lhas]. rewrite Hit, Hraw. cbn [Z.eqb negb].
+  unfold next_content. cbn [lz rawtag intag lerr ltext lattr lhas].
+  assert (Hr' : reads (lz l) (60 :: c :: nm ++ tl)) by (rewrite Ename in Hr; exact Hr).
+  destruct (text_loop_dispatch (lz l) c (nm ++ tl) Hr' Hcl) as [Hdisp|Hno]; [|exfalso; apply Hno; tauto].
+  rewrite Hlet in Hdisp. rewrite Hdisp. cbn [rbind].
+  pose proof (reads_mv _ _ 1 Hr ltac:(rewrite len_cons; pose proof (len_nonneg (name ++ tl)); lia)) as Hr1.
+  change (skipz 1 (60 :: name ++ tl)) with (name ++ tl) in Hr1.
+  unfold shift_starttag. rewrite (starttag_loop_run _ name tl Hr1 Hname Hstop). cbn [rbind].
+  pose proof (reads_mv _ _ (len name) Hr1 ltac:(rewrite len_app; lia)) as Hr2. rewrite skipz_app_len in Hr2.
+  destruct Hr2 as [Hw2 Hrem2].
+  rewrite lexeme_from_spec by (exact Hw2 || (cbn [mv lpos lstart]; lia)). cbn [rbind mv lstart lpos].
+  set (t := mkSl (lstart (lz l) + 1) (lpos (lz l) + 1 + len name - lstart (lz l) - 1)).
+  assert (Ht : t = mkSl (len pre + 1) (len name)) by (unfold t; rewrite Hcl, Hp; f_equal; lia).
+  pose proof (lx_wf_len _ Hw2) as [Hbl _].
+  assert (Hlim : len pre + 1 + len name + len tl <= lx_len (lz l)).
+  { pose proof (len_rem _ Hw2) as Hlr. rewrite Hrem2 in Hlr. cbn [mv lpos] in Hlr. unfold lx_len in *. cbn [mv lbuf] in Hlr. lia. }
+  assert (Hbytes : view_bytes (lbuf (lx_lower (mv (mv (lz l) 1) (len name)) t)) t = map lower name).
+  { unfold lx_lower. cbn [lbuf mv]. rewrite Ht. rewrite view_bytes_lower_view by (cbn [so sn]; pose proof (len_nonneg pre); unfold lx_len in *; cbn [mv lbuf] in Hbl; lia).
+    f_equal. unfold view_bytes. cbn [so sn]. replace (len pre + 1 + len name) with (len pre + (1 + len name)) by lia.
+    rewrite (at_input_slice d l pre _ 1 (1 + len name) Hat) by (rewrite ?len_cons, ?len_app; lia).
+    exact (slice_mid' [60] name tl). }
+  rewrite Hbytes, Hh. cbn [rbind]. rewrite (is_xml_raw h Hxml), Hxml.
+  (* shiftXML *)
+  set (z2 := lx_lower (mv (mv (lz l) 1) (len name)) t).
+  assert (Hr3 : reads z2 tl).
+  { apply reads_lower; [split; assumption|rewrite Ht; cbn; pose proof (len_nonneg pre); lia|rewrite Ht; cbn; lia|].
+    rewrite Ht. cbn [so sn mv lpos]. lia. }
+  assert (Herest : ews = [] \/ exists c0 r0, ews = c0 :: r0 /\ is_letter c0 = false).
+  { destruct ews as [|w ews']; [left; reflexivity|right]. exists w, ews'. split; [reflexivity|].
+    inversion Hews as [|? ? Hw _]; subst. unfold is_ws in Hw. unfold is_letter.
+    repeat (apply orb_true_iff in Hw; destruct Hw as [Hw|Hw]); apply Z.eqb_eq in Hw; subst w; reflexivity. }
+  unfold shift_xml. rewrite loop_with_no_tmpl.
+  rewrite (xml_loop_run h ename ews Helet Heh Herest (length inner) inner (le_n _) z2 true 0 0 (fuel_of z2) Hr3 Hinner).
+  2:{ pose proof (fuel_of_enough z2 tl (len inner) Hr3 ltac:(lia)) as Hfe. unfold len in Hfe. rewrite Nat2Z.id in Hfe. exact Hfe. }
+  cbn [rbind fst snd].
+  pose proof (reads_mv _ _ (len inner + 2 + len ename) Hr3 ltac:(lia)) as Hr4.
+  assert (Hsk : skipz (len inner + 2 + len ename) tl = ews).
+  { unfold tl. replace (inner ++ 60 :: 47 :: ename ++ ews) with ((inner ++ 60 :: 47 :: ename) ++ ews)
+      by (rewrite <- app_assoc; cbn [app]; rewrite <- ?app_assoc; reflexivity).
+    replace (len inner + 2 + len ename) with (len (inner ++ 60 :: 47 :: ename)) by (rewrite len_app, !len_cons; lia). apply skipz_app_len. }
+  rewrite Hsk in Hr4.
+  assert (Hews2 : Forall (fun c0 => c0 <> 62 /\ c0 <> 0) ews).
+  { eapply Forall_impl; [|exact Hews]. cbn beta. intros a Ha. unfold is_ws in Ha. 
+    repeat (apply orb_true_iff in Ha; destruct Ha as [Ha|Ha]); apply Z.eqb_eq in Ha; subst a; split; discriminate. }
+  unfold with_tmpl_lx; rewrite loop_with_no_tmpl; rewrite (xml_close_cut_run _ ews Hr4 Hews2). cbn [rbind fst snd].
+  destruct Hr4 as [Hw4 Hrem4].
+  destruct (rem_mv _ (len ews) Hw4) as [_ Hw5]; [rewrite Hrem4; lia|].
+  assert (Hend : at_end (mv (mv z2 (len inner + 2 + len ename)) (len ews)) = true).
+  { destruct (reads_end _ _ (conj Hw4 Hrem4)) as [_ He]. unfold at_end. apply Z.leb_le. cbn [mv lpos lbuf] in *. unfold lx_len in *. cbn [mv lbuf] in *. lia. }
+  rewrite shiftv_spec by exact Hw5. rewrite Hle, Hend. cbn [rbind fst snd orb negb].
+  unfold z2, lx_lower. cbn [mv lbuf lstart lpos so sn skip]. rewrite Ht, Hcl, Hp.
+  replace (len pre + 1 + len name + (len inner + 2 + len ename) + len ews - len pre) with n by (unfold n; lia).
+  eexists. split; [reflexivity|]. cbn [ltext lz intag rawtag lerr lbuf]. repeat split.
+Qed.
+
+(* "<svg" inner, cut by the end of input: one token, no error *)
+Lemma next_foreign_cut d l pre name inner h :
+  at_input d l pre (60 :: name ++ inner) -> intag l = false -> rawtag l = 0 -> lerr l = false ->
+  (exists c nm, name = c :: nm /\ is_letter c = true) -> Forall namechar name ->
+  to_hash (map lower name) = Ok h -> is_xml_hash h = true ->
+  (inner = [] \/ exists c r, inner = c :: r /\ (is_ws c = true \/ c = 62)) -> xml_cut_ok (length inner) h true 0 0 inner = true ->
+  exists l', next no_tmpl l = Ok (foreign_ty h, Some (mkSl (len pre) (1 + len name + len inner)), l') /\
+    ltext l' = Some (mkSl (len pre + 1) (len name)) /\
+    lbuf (lz l') = lower_view (lbuf (lz l)) (mkSl (len pre + 1) (len name)) /\
+    intag l' = false /\ rawtag l' = 0 /\ lerr l' = false.
+Proof.
+  intros Hat Hit Hraw Hle (c & nm & Ename & Hlet) Hname Hh Hxml Hfirst Hinner.
+  pose proof (at_input_reads _ _ _ _ Hat) as Hr.
+  pose proof Hat as (Hi & Hcl & Hd & Hp).
+  pose proof (len_nonneg name). pose proof (len_nonneg inner).
+  assert (Hstop : tag_stop inner).
+  { destruct Hfirst as [->|(ci & ri & Ei & Hci)]; [left; reflexivity|right]. exists ci, ri. split; [exact Ei|].
+    destruct Hci as [Hw| ->]; [left; exact Hw|right; left; reflexivity]. }
+  unfold next. cbn [lz rawtag intag lerr ltext lattr lhas]. rewrite Hit, Hraw. cbn [Z.eqb negb].
+  unfold next_content. cbn [lz rawtag intag lerr ltext lattr lhas].
+  assert (Hr' : reads (lz l) (60 :: c :: nm ++ inner)) by (rewrite Ename in Hr; exact Hr).
+  destruct (text_loop_dispatch (lz l) c (nm ++ inner) Hr' Hcl) as [Hdisp|Hno]; [|exfalso; apply Hno; tauto].
+  rewrite Hlet in Hdisp. rewrite Hdisp. cbn [rbind].
+  pose proof (reads_mv _ _ 1 Hr ltac:(rewrite len_cons; pose proof (len_nonneg (name ++ inner)); lia)) as Hr1.
+  change (skipz 1 (60 :: name ++ inner)) with (name ++ inner) in Hr1.
+  unfold shift_starttag. rewrite (starttag_loop_run _ name inner Hr1 Hname Hstop). cbn [rbind].
+  pose proof (reads_mv _ _ (len name) Hr1 ltac:(rewrite len_app; lia)) as Hr2. rewrite skipz_app_len in Hr2.
+  destruct Hr2 as [Hw2 Hrem2].
+  rewrite lexeme_from_spec by (exact Hw2 || (cbn [mv lpos lstart]; lia)). cbn [rbind mv lstart lpos].
+  set (t := mkSl (lstart (lz l) + 1) (lpos (lz l) + 1 + len name - lstart (lz l) - 1)).
+  assert (Ht : t = mkSl (len pre + 1) (len name)) by (unfold t; rewrite Hcl, Hp; f_equal; lia).
+  pose proof (lx_wf_len _ Hw2) as [Hbl _].
+  assert (Hlim : len pre + 1 + len name + len inner <= lx_len (lz l)).
+  { pose proof (len_rem _ Hw2) as Hlr. rewrite Hrem2 in Hlr. cbn [mv lpos] in Hlr. unfold lx_len in *. cbn [mv lbuf] in Hlr. lia. }
+  assert (Hbytes : view_bytes (lbuf (lx_lower (mv (mv (lz l) 1) (len name)) t)) t = map lower name).
+  { unfold lx_lower. cbn [lbuf mv]. rewrite Ht. rewrite view_bytes_lower_view by (cbn [so sn]; pose proof (len_nonneg pre); unfold lx_len in *; cbn [mv lbuf] in Hbl; lia).
+    f_equal. unfold view_bytes. cbn [so sn]. replace (len pre + 1 + len name) with (len pre + (1 + len name)) by lia.
+    rewrite (at_input_slice d l pre _ 1 (1 + len name) Hat) by (rewrite ?len_cons, ?len_app; lia).
+    exact (slice_mid' [60] name inner). }
+  rewrite Hbytes, Hh. cbn [rbind]. rewrite (is_xml_raw h Hxml), Hxml.
+  set (z2 := lx_lower (mv (mv (lz l) 1) (len name)) t).
+  assert (Hr3 : reads z2 inner).
+  { apply reads_lower; [split; assumption|rewrite Ht; cbn; pose proof (len_nonneg pre); lia|rewrite Ht; cbn; lia|].
+    rewrite Ht. cbn [so sn mv lpos]. lia. }
+  unfold shift_xml. rewrite loop_with_no_tmpl.
+  rewrite (xml_cut_loop h (length inner) inner (le_n _) z2 true 0 0 (fuel_of z2) Hr3 Hinner).
+  2:{ pose proof (fuel_of_enough z2 inner (len inner) Hr3 ltac:(lia)) as Hfe. unfold len in Hfe. rewrite Nat2Z.id in Hfe. exact Hfe. }
+  cbn [rbind fst snd].
+  pose proof (reads_mv z2 inner (len inner) Hr3 ltac:(lia)) as Hr4.
+  destruct Hr4 as [Hw4 Hrem4].
+  rewrite shiftv_spec by exact Hw4. rewrite Hle. cbn [rbind fst snd orb].
+  assert (Hend : at_end (mv z2 (len inner)) = true).
+  { destruct (reads_end z2 inner Hr3) as [_ He]. unfold at_end. apply Z.leb_le. cbn [mv lpos lbuf]. unfold lx_len in *. cbn [mv lbuf]. lia. }
+  rewrite Hend. cbn [negb].
+  unfold z2, lx_lower. cbn [mv lbuf lstart lpos so sn skip]. rewrite Ht, Hcl, Hp.
+  replace (len pre + 1 + len name + len inner - len pre) with (1 + len name + len inner) by lia.
   eexists. split; [reflexivity|]. cbn [ltext lz intag rawtag lerr lbuf]. repeat split.
 Qed.
 
@@ -1924,4 +2242,144 @@ Proof.
   rewrite shiftv_spec by exact Hw2. cbn [rbind fst snd mv lstart lpos].
   rewrite Hcl, Hp. replace (len pre + (len t + len tl) - len pre) with (len t + len tl) by lia.
   eexists. split; [reflexivity|]. cbn [ltext lz intag rawtag lerr skip lbuf mv]. repeat split.
+Qed.
+
+(* ---- without delimiters HasTemplate() stays false ------------------------------------------------------------------------ *)
+Ltac dbind H x E := match type of H with rbind ?e _ = _ => destruct e as [x| |] eqn:E; cbn [rbind] in H; try discriminate end.
+
+Lemma wt_flag {S R} (cur : S -> lx) (setc : S -> lx -> S) (body : S -> res (lp S R)) fuel s h rh :
+  loop fuel (with_tmpl no_tmpl cur setc body) (s, h) = Ok rh -> snd rh = h.
+Proof.
+  rewrite loop_with_no_tmpl. destruct (loop fuel body s); cbn [rbind]; try discriminate. intros H. injection H as <-. reflexivity.
+Qed.
+
+Lemma shift_bogus_flag z h r : shift_bogus no_tmpl z h = Ok r -> snd r = h.
+Proof.
+  unfold shift_bogus, with_tmpl_lx. intros H. dbind H rh El. apply wt_flag in El. dbind H t Et. dbind H s Es.
+  injection H as <-. exact El.
+Qed.
+
+Lemma shift_endtag_flag z h r : shift_endtag no_tmpl z h = Ok r -> snd r = h.
+Proof.
+  unfold shift_endtag, with_tmpl_lx. intros H. dbind H rh El. apply wt_flag in El. dbind H t Et. cbn zeta in H. dbind H s Es.
+  destruct (2 <=? sn (fst s)); [|discriminate]. injection H as <-. exact El.
+Qed.
+
+Lemma read_markup_flag z h r : read_markup no_tmpl z h = Ok r -> snd r = h.
+Proof.
+  unfold read_markup, with_tmpl_lx. intros H. dbind H a Ea. destruct a.
+  { dbind H rh El. apply wt_flag in El. cbn zeta in H. dbind H t Et. dbind H s Es. injection H as <-. exact El. }
+  dbind H a2 Ea2. destruct a2.
+  { dbind H rh El. apply wt_flag in El. cbn zeta in H. dbind H t Et. dbind H s Es. injection H as <-. exact El. }
+  dbind H a3 Ea3. destruct a3.
+  { cbn zeta in H. dbind H c0 Ec. dbind H rh El. apply wt_flag in El. dbind H t Et. dbind H s Es. injection H as <-. exact El. }
+  dbind H b Eb. injection H as <-. exact (shift_bogus_flag _ _ _ Eb).
+Qed.
+
+Lemma shift_xml_flag raw z e h r : shift_xml no_tmpl raw z e h = Ok r -> snd r = h.
+Proof.
+  unfold shift_xml, with_tmpl_lx. intros H. dbind H rh El. apply wt_flag in El. destruct rh as [[z'|z'] h1]; cbn [fst snd] in *; subst h1.
+  - dbind H rh2 El2. apply wt_flag in El2. destruct rh2 as [[z''|z''] h2]; cbn [fst snd] in *; subst h2; dbind H s Es; injection H as <-; reflexivity.
+  - dbind H s Es. injection H as <-. reflexivity.
+Qed.
+
+Lemma rawtext_loop_flag raw fuel z h r : loop fuel (rawtext_body no_tmpl raw) (z, h) = Ok r -> snd r = h.
+Proof.
+  intros H. refine (loop_inv (fun s => snd s = h) (fun r => snd r = h) (rawtext_body no_tmpl raw) _ fuel (z, h) r eq_refl H).
+  clear. intros [z has] x Hs Hx. cbn [snd] in Hs. subst has. unfold rawtext_body in Hx. dbind Hx c0 Ec. rewrite skip_tmpl_none in Hx. cbn [rbind] in Hx.
+  destruct (c0 =? 60).
+  - dbind Hx c1 Ec1. destruct (c1 =? 47).
+    + cbn zeta in Hx. dbind Hx z2 Ez. dbind Hx hh Eh. destruct (hh =? raw); [|injection Hx as <-; reflexivity].
+      dbind Hx cc Ecc. destruct (is_tagend cc || eof0 z2 cc); injection Hx as <-; reflexivity.
+    + dbind Hx sc Esc. destruct sc; [|injection Hx as <-; reflexivity].
+      dbind Hx rr Er. unfold script_comment_loop_body in Er. apply wt_flag in Er. destruct rr as [[z'|z'] h']; cbn [snd] in Er; subst h'; injection Hx as <-; reflexivity.
+  - destruct (eof0 z c0); injection Hx as <-; reflexivity.
+Qed.
+
+Lemma shift_rawtext_flag raw z h r : shift_rawtext no_tmpl raw z h = Ok r -> snd r = h.
+Proof.
+  unfold shift_rawtext, with_tmpl_lx. intros H. destruct (raw =? html_hash_Plaintext).
+  - dbind H rh El. apply wt_flag in El. dbind H s Es. injection H as <-. exact El.
+  - dbind H s El. apply rawtext_loop_flag in El. dbind H s2 Es. injection H as <-. exact El.
+Qed.
+
+Lemma attrname_loop_flag fuel s r : loop fuel (attrname_body no_tmpl) s = Ok r -> snd r = snd s.
+Proof.
+  intros H. refine (loop_inv (fun s' => snd s' = snd s) (fun r => snd r = snd s) (attrname_body no_tmpl) _ fuel s r eq_refl H).
+  clear. intros [z has] x Hs Hx. cbn [snd] in Hs. unfold attrname_body in Hx. rewrite tmpl_at_none in Hx. cbn [rbind] in Hx.
+  dbind Hx c0 Ec. dbind Hx b Eb. destruct b; injection Hx as <-; exact Hs.
+Qed.
+
+Lemma attrq_loop_flag q fuel s r : loop fuel (attrq_body no_tmpl q) s = Ok r -> snd r = snd s.
+Proof.
+  intros H. refine (loop_inv (fun s' => snd s' = snd s) (fun r => snd r = snd s) (attrq_body no_tmpl q) _ fuel s r eq_refl H).
+  clear. intros [z has] x Hs Hx. cbn [snd] in Hs. unfold attrq_body in Hx. dbind Hx c0 Ec. rewrite tmpl_at_none in Hx. cbn [rbind] in Hx.
+  destruct (c0 =? q); [injection Hx as <-; exact Hs|]. destruct (eof0 z c0); injection Hx as <-; exact Hs.
+Qed.
+
+Lemma shift_attribute_flag l z r : shift_attribute no_tmpl l z = Ok r -> lhas (snd r) = lhas l.
+Proof.
+  unfold shift_attribute. intros H. cbn zeta in H. rewrite tmpl_rep_guarded_none in H. cbn [rbind fst snd] in H.
+  dbind H r1 E1. apply attrname_loop_flag in E1. cbn [snd] in E1. dbind H z2 Ez2. dbind H c0 Ec0.
+  dbind H r3 E3. destruct r3 as [[z5 has5] av].
+  assert (Hh5 : has5 = lhas l).
+  { destruct (c0 =? 61); [|injection E3 as <- <- <-; exact E1].
+    dbind E3 z3 Ez3. dbind E3 c1 Ec1. rewrite tmpl_at_none in E3. cbn [rbind] in E3.
+    dbind E3 rr Er. dbind E3 v Ev. injection E3 as <- <- <-.
+    destruct ((c1 =? 34) || (c1 =? 39)).
+    - apply attrq_loop_flag in Er. cbn [snd] in Er. congruence.
+    - unfold with_tmpl_lx in Er. apply wt_flag in Er. congruence. }
+  rewrite tmpl_rep_guarded_none in H. cbn [rbind fst snd] in H. dbind H t Et. dbind H s Es. injection H as <-. cbn [snd lhas]. exact Hh5.
+Qed.
+
+Lemma shift_starttag_flag l z r : shift_starttag no_tmpl l z = Ok r -> lhas (snd r) = lhas l.
+Proof.
+  unfold shift_starttag. intros H. dbind H z1 E1. dbind H t Et. cbn zeta in H. dbind H h Eh.
+  destruct (is_raw_hash h); [destruct (is_xml_hash h)|].
+  - dbind H x Ex. destruct x as [[[dv z3] e] hx]. apply shift_xml_flag in Ex. cbn [snd] in Ex. subst hx. destruct e; injection H as <-; reflexivity.
+  - dbind H s Es. injection H as <-. reflexivity.
+  - dbind H s Es. injection H as <-. reflexivity.
+Qed.
+
+Lemma text_loop_not_tmpl fuel z r : loop fuel (text_body no_tmpl) z = Ok r -> snd r <> DTmpl.
+Proof.
+  intros H. refine (loop_inv (fun _ => True) (fun r => snd r <> DTmpl) (text_body no_tmpl) _ fuel z r I H).
+  clear. intros s x _ Hx. unfold text_body in Hx. dbind Hx c0 Ec. rewrite tmpl_at_none in Hx. cbn [rbind] in Hx.
+  destruct (c0 =? 60).
+  - dbind Hx c1 Ec1. dbind Hx ie Eie.
+    destruct (negb ie && negb (is_letter c1) && negb (c1 =? 33) && negb (c1 =? 63)); [injection Hx as <-; exact I|].
+    destruct (0 <? mark s); [injection Hx as <-; cbn [snd]; discriminate|].
+    destruct ie; [injection Hx as <-; cbn [snd]; discriminate|].
+    destruct (is_letter c1); [injection Hx as <-; cbn [snd]; discriminate|].
+    destruct (c1 =? 33); [injection Hx as <-; cbn [snd]; discriminate|].
+    destruct (c1 =? 63); injection Hx as <-; [cbn [snd]; discriminate|exact I].
+  - destruct (eof0 s c0); injection Hx as <-; [cbn [snd]; destruct (0 <? mark s); discriminate|exact I].
+Qed.
+
+Lemma next_content_flag l r : next_content no_tmpl l = Ok r -> lhas (snd r) = lhas l.
+Proof.
+  unfold next_content. intros H. dbind H rd El. pose proof (text_loop_not_tmpl _ _ _ El) as Hnt. destruct rd as [z dd]. cbn [snd] in Hnt.
+  destruct dd; try congruence.
+  - dbind H s Es. injection H as <-. reflexivity.
+  - cbn zeta in H. dbind H c0 Ec. destruct (negb (is_letter c0)).
+    + dbind H b Eb. injection H as <-. cbn [snd lhas]. exact (shift_bogus_flag _ _ _ Eb).
+    + dbind H b Eb. injection H as <-. cbn [snd lhas]. exact (shift_endtag_flag _ _ _ Eb).
+  - rewrite (shift_starttag_flag _ _ _ H). reflexivity.
+  - dbind H m Em. destruct m as [[[[ty tk] tx] z'] has]. injection H as <-. cbn [snd lhas]. exact (read_markup_flag _ _ _ Em).
+  - dbind H b Eb. injection H as <-. cbn [snd lhas]. exact (shift_bogus_flag _ _ _ Eb).
+  - injection H as <-. reflexivity.
+Qed.
+
+Lemma next_no_tmpl_has l r : next no_tmpl l = Ok r -> lhas (snd r) = false.
+Proof.
+  unfold next. cbn [lz rawtag intag lerr ltext lattr lhas]. intros H. destruct (intag l).
+  - unfold next_intag in H. cbn [lz rawtag intag lerr ltext lattr lhas] in H. dbind H z1 E1. dbind H c0 Ec.
+    destruct (eof0 z1 c0); [injection H as <-; reflexivity|].
+    dbind H ia Eia. destruct ia.
+    + dbind H a Ea. injection H as <-. cbn [snd]. rewrite (shift_attribute_flag _ _ _ Ea). reflexivity.
+    + dbind H s Es. injection H as <-. reflexivity.
+  - destruct (negb (rawtag l =? 0)).
+    + dbind H rr Er. destruct rr as [[v z] has]. apply shift_rawtext_flag in Er. cbn [snd] in Er. subst has.
+      destruct (0 <? sn v); [injection H as <-; reflexivity|]. rewrite (next_content_flag _ _ H). reflexivity.
+    + rewrite (next_content_flag _ _ H). reflexivity.
 Qed.
